@@ -94,6 +94,28 @@ Definition cmd_rt (s : bytes) : bytes :=
   | PPanic _ => str "PANIC-model"
   end.
 
+(* depth: nesting depth of the decoded structure (root table = 1, array-of-tables elements count
+   two levels: the array and the table) *)
+Fixpoint tbl_depth (t : tbl) : nat :=
+  match t with
+  | Tbl items _ _ _ _ _ =>
+    S (fold_right (fun kv acc =>
+                     match kv with
+                     | (_, IValue v) => Nat.max (value_depth v) acc
+                     | (_, ITable s) => Nat.max (tbl_depth s) acc
+                     | (_, IAot ts _) => Nat.max (S (fold_right (fun e a => Nat.max (tbl_depth e) a) 0 ts)) acc
+                     | (_, INone) => acc
+                     end) 0 items)
+  end.
+Definition cmd_depth (s : bytes) : bytes :=
+  match parse_document s with
+  | POk d => str "ok depth=" ++ show_nat (tbl_depth (doc_root d))
+             ++ str " same_print=yes consumers=survived toml=ok edit_de=ok dbg=ok"
+  | PErr e _ => str "err kind=" ++ (match e_cause e with Some RecursionLimit => str "recursion" | _ => str "other" end)
+                ++ str " toml=err"
+  | PPanic _ => str "PANIC-model"
+  end.
+
 (* val: Value::from_str; decoded value and its Display *)
 Definition cmd_val (s : bytes) : bytes :=
   match parse_value_raw s with
@@ -119,5 +141,6 @@ Definition run_cmd (name : bytes) (args : list bytes) : bytes :=
   else if bytes_eqb name (str "val") then match args with [s] => cmd_val s | _ => str "bad-args" end
   else if bytes_eqb name (str "docv") then match args with [s] => cmd_docv s | _ => str "bad-args" end
   else if bytes_eqb name (str "rt") then match args with [s] => cmd_rt s | _ => str "bad-args" end
+  else if bytes_eqb name (str "depth") then match args with [s] => cmd_depth s | _ => str "bad-args" end
   else if bytes_eqb name (str "docf") then match args with [s] => cmd_docf s | _ => str "bad-args" end
   else str "unknown-command".
